@@ -156,6 +156,13 @@ def case(arg):
                         return fail("retold_point_still_pending", f"the told point {p!r} was marked pending again and told again, it is still pending")
                     if before != after:
                         d = [kk for kk in before if before[kk] != after[kk]]
+                        if b == "l2d" and d == ["lossF"] and _hexclose(before["lossF"], after["lossF"], 1e-6):
+                            # Learner2D: the discard / add of the re-told point re-ordered the pending hash set, whose iteration
+                            # order feeds the triangulation behind loss(real=False) (recorded finding l2d_pending_set_order)
+                            res.setdefault("l2d_order", f"[{kn}] op {i} {op}: re-telling {p!r} changed loss(real=False) from "
+                                                        f"{float.fromhex(before['lossF'])!r} to {float.fromhex(after['lossF'])!r}")
+                            bump("l2d_pending_order_event")
+                            continue
                         return fail("retell_noop", f"telling the known point {p!r} again ({'same' if same else 'different'} value) changed {d}")
                 bump("retell_same" if same else "retell_other")
             elif act[0] == "tell_pending":
@@ -216,6 +223,14 @@ def _other_value(kn, v):
     return v + 1.5
 
 
+def _hexclose(x, y, rtol):
+    try:
+        a, b_ = float.fromhex(x), float.fromhex(y)
+    except (TypeError, ValueError):
+        return False
+    return abs(a - b_) <= rtol * max(abs(a), abs(b_))
+
+
 def rejected_tell_case(seed):
     """LearnerND: a result for an in-domain point that the triangulation refuses (it lies within its 1e-8 tolerance of an
     evaluated vertex) makes tell() raise - whether that rejection is right is C03/C04's business; the bookkeeping of C10 must hold
@@ -267,6 +282,9 @@ def run(ctx):
             stats[k] = stats.get(k, 0) + v
         if r.get("aborted"):
             aborted[r["kind"] + ":" + r["aborted"]] = aborted.get(r["kind"] + ":" + r["aborted"], 0) + 1
+        if r.get("l2d_order"):
+            failures.append({"clause": "retell_noop", "signature": "C10.lossF:l2d_pending_set_order",
+                             "detail": r["l2d_order"], "replay": {"kind": r["kind"], "seed": r["seed"], "nops": r["nops"]}})
         if r.get("integ_reissue"):
             failures.append({"clause": "ask_reissues_told_sample", "signature": "C10.ask_reissues_told_sample.integ",
                              "detail": r["integ_reissue"], "replay": {"kind": r["kind"], "seed": r["seed"], "nops": r["nops"]}})
